@@ -100,6 +100,13 @@ class LanguageClassesFactory:
             assoc_json_subentry = create_association_entry(assoc)
             subentry_name = assoc.name + '_' + assoc.left_field.asset.name + '_' \
                 + assoc.right_field.asset.name
+            if subentry_name in self.json_schema['definitions']\
+                    ['LanguageAssociation']['definitions'][assoc.name]\
+                    ['definitions']:
+                # Several associations share both the name and the asset
+                # types, only their field names tell them apart.
+                subentry_name += '_' + assoc.left_field.fieldname + '_' \
+                    + assoc.right_field.fieldname
 
             logger.info('Creating %s subentry association.', subentry_name)
             assoc_json_subentry['title'] = subentry_name
@@ -190,7 +197,9 @@ class LanguageClassesFactory:
         self,
         assoc_name: str,
         left_asset: str,
-        right_asset: str
+        right_asset: str,
+        left_field: Optional[str] = None,
+        right_field: Optional[str] = None
     ) -> Optional[str]:
         """
         Get association name based on its signature. This is primarily
@@ -201,6 +210,10 @@ class LanguageClassesFactory:
         assoc_name          - the association name
         left_asset          - the name of the left asset type
         right_asset         - the name of the right asset type
+        left_field          - optional, the name of the left field; needed
+                              only when several associations share both the
+                              name and the asset types
+        right_field         - optional, the name of the right field
 
         Return: The matching association name if a match is found.
         None if there is no match.
@@ -227,6 +240,16 @@ class LanguageClassesFactory:
                 right_asset,
                 left_asset
             )
+            if left_field is not None and right_field is not None:
+                for base_name, first_field, second_field in (
+                        (full_name, left_field, right_field),
+                        (full_name_flipped, right_field, left_field)):
+                    for candidate in (base_name, '%s_%s_%s' %
+                            (base_name, first_field, second_field)):
+                        if candidate in assoc_entry['definitions'] and \
+                                set(assoc_entry['definitions'][candidate]\
+                                ['properties']) == {left_field, right_field}:
+                            return candidate
             if not full_name in assoc_entry['definitions']:
                 if not full_name_flipped in assoc_entry['definitions']:
                     raise LookupError(
